@@ -565,13 +565,17 @@ br_ssl_engine_inject_entropy(br_ssl_engine_context *cc,
 	 * Externally provided entropy is assumed to be "good enough"
 	 * (we cannot really test its quality) so if the RNG structure
 	 * could be initialised at all, then we marked the RNG as
-	 * "properly seeded".
+	 * "properly seeded". An empty injection, though, is no entropy
+	 * at all, and must not make an unseeded engine start a handshake
+	 * with values that anybody can recompute.
 	 */
 	if (!rng_init(cc)) {
 		return;
 	}
 	br_hmac_drbg_update(&cc->rng, data, len);
-	cc->rng_init_done = 2;
+	if (len != 0) {
+		cc->rng_init_done = 2;
+	}
 }
 
 /*
